@@ -75,21 +75,21 @@ func readComcastEbp(data []byte) (ebp *comcastEbp, err error) {
 		return nil, gots.ErrNoPayload
 	}
 
-	index := uint8(0)
+	index := 0 // an int: 8 bit index arithmetic wraps around for data_field_length 254/255
 	// have reports whether n more bytes can be read at index
-	have := func(n int) bool { return int(index)+n <= len(data) }
+	have := func(n int) bool { return index+n <= len(data) }
 
 	ebp.DataFieldTag = data[index]
-	index += uint8(1)
+	index += 1
 
 	ebp.DataFieldLength = data[index]
-	index += uint8(1)
+	index += 1
 
 	// Check if the data is as advertised
 	if ebp.DataFieldLength > 0 {
 		if len(data) >= 3 {
 			ebp.DataFlags = data[index]
-			index += uint8(1)
+			index += 1
 		} else {
 			return nil, gots.ErrInvalidEBPLength
 		}
@@ -100,7 +100,7 @@ func readComcastEbp(data []byte) (ebp *comcastEbp, err error) {
 			return nil, gots.ErrInvalidEBPLength
 		}
 		ebp.ExtensionFlags = data[index]
-		index += uint8(1)
+		index += 1
 	}
 
 	if ebp.SapFlag() {
@@ -108,7 +108,7 @@ func readComcastEbp(data []byte) (ebp *comcastEbp, err error) {
 			return nil, gots.ErrInvalidEBPLength
 		}
 		ebp.SapType = data[index]
-		index += uint8(1)
+		index += 1
 	}
 
 	if ebp.GroupingFlag() {
@@ -117,7 +117,7 @@ func readComcastEbp(data []byte) (ebp *comcastEbp, err error) {
 		}
 		group := data[index]
 		ebp.Grouping = append(ebp.Grouping, group)
-		index += uint8(1)
+		index += 1
 	}
 
 	if ebp.TimeFlag() {
@@ -125,17 +125,17 @@ func readComcastEbp(data []byte) (ebp *comcastEbp, err error) {
 			return nil, gots.ErrInvalidEBPLength
 		}
 		ebp.TimeSeconds = binary.BigEndian.Uint32(data[index : index+4])
-		index += uint8(4)
+		index += 4
 
 		ebp.TimeFraction = binary.BigEndian.Uint32(data[index : index+4])
-		index += uint8(4)
+		index += 4
 	}
 
-	if index < ebp.DataFieldLength+2 {
-		if int(ebp.DataFieldLength+2) > len(data) {
+	if index < int(ebp.DataFieldLength)+2 {
+		if int(ebp.DataFieldLength)+2 > len(data) {
 			return nil, gots.ErrInvalidEBPLength
 		}
-		ebp.ReservedBytes = data[index : ebp.DataFieldLength+2]
+		ebp.ReservedBytes = data[index : int(ebp.DataFieldLength)+2]
 	}
 
 	// update the successful read time
